@@ -7,7 +7,9 @@ server is stated and refuted in the model (block verification, re-verification w
 Tie: stream `pool` (hpool executes the real txnpool/common.TXPool, drv_pool the model, same op lines; GetTxPool
 results are re-checked by the model through a witness iteration order); stream `poolconc` (8..16 real goroutines on
 one TXPool, recorded history linearized and the witness re-executed by the model; schedules are sampled); stream
-`poolsrv` (the real TXPoolServer with actors, workers and scripted validators at the real constants, counts
+`poolord` (the real TXPoolServer with the two validators answering separately at chosen heights and consensus raising
+the height in between; every GetTxnPoolRsp checked against "verified at or after the requested height by both
+validators"); stream `poolsrv` (the real TXPoolServer with actors, workers and scripted validators at the real constants, counts
 compared with the count model at quiescent points, capacity oracle).
 """
 
@@ -86,6 +88,8 @@ def run(ctx):
         ctx.judge(res, theorem_hint="Poly.Props.C37.* (model Poly.Model.Pool no longer matches txnpool/common.TXPool)")
         res = ctx.correspondence("poolconc", hbin, ["poolconc"], drv, ["poolconc"])
         ctx.judge(res, theorem_hint="Poly.Props.C37 sequential theorems (a recorded concurrent history has no linearization accepted by the model)")
+        res = ctx.correspondence("poolord", hbin, ["poolord"], drv, ["poolord"])
+        ctx.judge(res, theorem_hint="Poly.Props.C37 worker-level theorems (WState no longer matches txnpool_worker.go handleRsp/putTxPool and TXPoolServer.getTxPool)")
         res = ctx.correspondence("poolsrv", hbin, ["poolsrv"], drv, ["poolsrv"], mem_gb=14)
         judge_known_unshrunk(ctx, res, "Poly.Props.C37 server-level theorems (count model Srv no longer matches txnpool/proc at quiescent points)")
     if hbin and ctx.thorough() and ctx.replay is None:
